@@ -565,6 +565,28 @@ def build_battery(seed: int):
             battery.append(("der_path.hardenings", lambda text=text: dp.hardenings_from_der_path(text)))
     for raw in (b"\x76\xa9\x14" + bytes(20) + b"\x88\xac", b"\x51\x20" + bytes(range(32)), b"\x00\x63\x51\x67\x52\x68", b""):
         battery.append(("script.parse", lambda raw=raw: sc.parse(raw)))
+    # the other public functions that answer with a list: lookups a caller may well consume as it reads them
+    from btclib import b32, b58, network as nw
+    from btclib.mnemonic import mnemonic as mnm
+    from btclib.number_theory import mod_inv_batch_var
+    from btclib.script import script_pub_key as spkm
+
+    addr_b58 = b58.p2pkh(bytes_from_point(mult(7 + seed)))
+    addr_b32 = b32.p2wpkh(bytes_from_point(mult(7 + seed)))
+    wif = b58.wif_from_prv_key(7 + seed)
+    for field, prefix in (("p2pkh", b"\x00"), ("p2pkh", b"\x6f"), ("p2sh", b"\x05"), ("wif", b"\xef"), ("hrp", "tb"), ("hrp", "bc")):
+        battery.append(("network.networks_from_key_value", lambda field=field, prefix=prefix: nw.networks_from_key_value(field, prefix)))
+    for net in ("mainnet", "testnet", "regtest"):
+        battery += [("network.xpubversions", lambda net=net: nw.xpubversions_from_network(net)),
+                    ("network.xprvversions", lambda net=net: nw.xprvversions_from_network(net))]
+    battery += [("network.networks_from_xkeyversion", lambda: nw.networks_from_xkeyversion(bytes.fromhex("043587cf"))),
+                ("address-read-back:b58", lambda: b58.h160_from_address(addr_b58)), ("address-read-back:b32", lambda: b32.witness_from_address(addr_b32)),
+                ("address-read-back:wif", lambda: b58.prv_keyinfo_from_wif(wif) if hasattr(b58, "prv_keyinfo_from_wif") else None),
+                ("script_pub_key.addresses", lambda: spkm.addresses(b"\x76\xa9\x14" + bytes(20) + b"\x88\xac")),
+                ("mnemonic.indexes", lambda: mnm.indexes_from_mnemonic("abandon zoo about", "en")),
+                ("musig2.key_sort", lambda: musig2.key_sort([bytes_from_point(mult(9)), bytes_from_point(mult(3)), bytes_from_point(mult(5))])),
+                ("mod_inv_batch_var", lambda: mod_inv_batch_var([3, 5, 7, 11], 10007)),
+                ("dsa.recover_pub_keys_", lambda: dsa.recover_pub_keys_(H("m", seed), dsa.sign_(H("m", seed), 11 + seed)))]
     # one MuSig2 session object verified repeatedly (per-session caches)
     sks = [5 + seed, 7 + seed]
     pks = [bytes_from_point(mult(s)) for s in sks]
@@ -655,7 +677,7 @@ def shard_independence(ctx: Ctx) -> None:
                     ctx.violation(f"answer-depends-on-history:{battery[j][0]}:a-caller-edited-an-earlier-answer",
                                   f"{battery[j][0]} answered {str(got)[:120]} after a caller edited the list it had been given, {str(golden[j])[:120]} before",
                                   {"call": battery[j][0], "situation": "the returned container is shared with a cache"})
-                compare("after-an-edited-answer", [x for x in order if battery[x][0].startswith(("derive-by-text", "der_path", "bip32"))][:12])
+                compare("after-an-edited-answer", [x for x in order if battery[x][0].startswith(("derive-by-text", "der_path", "bip32", "address-read-back", "network."))][:16])
         for c in caches.values():
             c.cache_clear()
         compare("after-cache-clear", order[: len(order) // 2])
